@@ -740,7 +740,8 @@ fn pair_run(st: &mut St, an: &'static str, bn: &'static str, f: PairFns) {
 
         // Mean: a declared unit on a total/occurrences pair
         let (val, occ) = num_parts(&x);
-        let as_repeated = [Observation::Repeated { total: val, occurrences: occ }];
+        // a Mean starts from 0.0 and adds (so -0.0 is recorded as +0.0: the Mean's business, not the unit's)
+        let as_repeated = [Observation::Repeated { total: 0.0 + val, occurrences: occ }];
         let calls = emit(Op::UnitOverMean, &one, none);
         if occ == 0 {
             expect_nothing(st, "unit-over-mean", &from, &to, &calls);
@@ -971,9 +972,10 @@ fn inverse_run(st: &mut St, an: &'static str, bn: &'static str, r1: f64, r2: f64
     let r_ref = forward.0 as f64 / forward.1 as f64;
     for x in st.alphabet.clone() {
         let calls = back(x);
-        // an intermediate beyond f64 cannot come back
+        // an intermediate beyond f64, or in the subnormal range, cannot come back
         let (val, _) = num_parts(&x);
-        if forward != (1, 1) && !(val * r_ref).is_finite() {
+        let mid = val * r_ref;
+        if forward != (1, 1) && (!mid.is_finite() || (mid != 0.0 && mid.abs() < f64::MIN_POSITIVE)) {
             st.unrepresentable += 1;
             continue;
         }
@@ -1367,7 +1369,7 @@ fn main() {
     rep.assume("prefixes are decimal (kilo = 10^3 .. tera = 10^12, milli = 10^-3, micro = 10^-6) and one byte is 8 bits, as documented on PositiveScale / NegativeScale; CloudWatch itself does not define the prefixes");
     rep.assume("a unitless number keeps its value when a unit is attached (documented on Convert for unit::None)");
     rep.assume("number equality: when the reference ratio is 1 the observation must be bit-identical (u64::MAX stays Unsigned(u64::MAX)); otherwise |emitted - reference| <= 4 * f64::EPSILON * |reference| where the reference is computed from exact integers (u128) with at most two roundings; 8 * EPSILON for a Duration converted twice; an emitted Unsigned is accepted when numerically equal");
-    rep.assume("results whose exact value exceeds f64::MAX are only required not to be finite (counted in unrepresentable_results_skipped)");
+    rep.assume("results whose exact value exceeds f64::MAX are only required not to be finite, and a there-and-back conversion whose intermediate overflows or falls in the subnormal range is not compared (both counted in unrepresentable_results_skipped); a subnormal result is compared with an absolute slack of two least subnormals");
     rep.assume("the 200 conversions between a data size and a data rate (e.g. Byte -> BytePerSecond) are implemented by the repository because both share one private scale table; whether they should exist is not determined by the property; they are checked numerically (bits against bits per second) and counted in size_rate_cross_pairs_checked_numerically");
     rep.assume("#[metrics(unit = ..)] on a String field is rejected at compile time (String is not a MetricValue), so the string clause is exercised with a MetricValue that writes a string");
     rep.assume("user-defined UnitTag types (an open set: unit::None converts to any of them) are outside the enumeration");
